@@ -1254,7 +1254,9 @@ def chunk_reduce(
         results["groups"] = expected_groups
     else:
         if empty:
-            results["groups"] = np.array([np.nan])
+            # a missing label as placeholder (the combine drops it), in the labels' own dtype where that has a missing value:
+            # a float NaN cannot be concatenated with datetime64 labels and widens float32 ones
+            results["groups"] = np.array([np.nan]).astype(by.dtype if by.dtype.kind in "fcmM" else np.float64)
         else:
             results["groups"] = groups
 
